@@ -89,7 +89,10 @@ pub struct InfoSpec {
 pub const INFO_KEYS: [&str; 6] = ["Title", "Author", "Subject", "Keywords", "Creator", "Producer"];
 
 #[derive(Clone, Debug)]
-pub struct DocSpec { pub cached_builder: bool, pub pages: Vec<PageSpec>, pub info: Option<InfoSpec> }
+pub struct DocSpec { pub cached_builder: bool, pub pages: Vec<PageSpec>, pub info: Option<InfoSpec>,
+    /// size steering: the document is padded (Keywords entry of the information dictionary) until its cross-reference section
+    /// starts at `boundary + delta`, so that offsets just below and just above a power of 256 occur in one file
+    pub steer: Option<(usize, i32)> }
 
 /// the marker entry every page carries in `other` (identifies the page whatever else is equal)
 pub const MARKER: &str = "C10Idx";
@@ -351,7 +354,8 @@ pub fn gen_doc(src: &mut Src) -> DocSpec {
     if n > 1 { src.label("multi-page"); }
     let info = if src.alt(1, &["no-info", "info"]) == 1 { Some(gen_info(src)) } else { None };
     let pages = (0..n).map(|i| gen_page(src, i)).collect();
-    DocSpec { cached_builder, pages, info }
+    let steer = if src.alt(24, &["size-as-it-comes", "size-steered-to-64KiB"]) == 1 { Some((65536usize, src.draw(90) as i32 - 12)) } else { None };
+    DocSpec { cached_builder, pages, info, steer }
 }
 
 pub fn pdf_string(b: &[u8]) -> PdfString { PdfString::new(b.into()) }
